@@ -3,7 +3,7 @@
     for every supported width, both depths below 256, every space-time MOC whose elements have
     non-empty parts and indices below the most significant bit.  The two depth cards are handled
     symbolically, the other cards by computation. *)
-From Coq Require Import List NArith Arith Lia Bool String Ascii.
+From Coq Require Import List NArith Arith Lia Bool String Ascii Permutation.
 From MOC.Base Require Import RangeSet.
 From MOC.Model Require Import Qty Query Build Repr Serial ST STSerial AsciiCodec AsciiProofs AsciiStreamProofs FitsCodec FitsProofs.
 Import ListNotations.
@@ -145,4 +145,232 @@ Proof.
   assert (E : (N.of_nat (List.length rows) <? nrows / 2) = false).
   { unfold nrows. rewrite N.mul_comm, N.div_mul by lia. apply N.ltb_irrefl. }
   rewrite E. unfold rows. rewrite (st_rows_roundtrip (2 ^ (w - 1)) X HX). reflexivity.
+Qed.
+
+(** ---------- NUNIQ ---------- *)
+Lemma is_moc_kw_order rec : firstn 8 rec = s2l "MOCORDER" -> is_moc_kw rec = Some (10, depth_val rec).
+Proof. intros K. unfold is_moc_kw. cbv zeta. rewrite K. vm_compute. reflexivity. Qed.
+Lemma order_card d : d < 256 -> is_moc_kw (kw_record (s2l "MOCORDER") (adec d)) = Some (10, Datatypes.inr (KDepth d)).
+Proof. intros Hd. rewrite is_moc_kw_order by reflexivity. rewrite depth_card; [reflexivity|reflexivity|exact Hd]. Qed.
+
+Lemma nuniq_tail_loop w d k : okw w -> d < 256 ->
+  exists m, kw_cards (nuniq_cards w d ++ [pad80 (s2l "END")] ++ repeat blank k) [] = Datatypes.inr (m, true) /\
+            dispatch m = Datatypes.inr (LSNuniq, d, 0) /\ width_of LSNuniq m (w / 8) = Datatypes.inr w.
+Proof.
+  intros Hw Hd.
+  destruct Hw as [->|[->| ->]]; unfold nuniq_cards; cbn [app kw_cards];
+    rewrite (ord_s_card d Hd), (order_card d Hd);
+    repeat closed_card; cbn [kw_cards kw_insert kw_get app];
+    repeat closed_card;
+    eexists; (split; [vm_compute; reflexivity|split; vm_compute; reflexivity]).
+Qed.
+
+Definition regroupc (d : N) (cells : list cell) : list cell :=
+  flat_map (fun dd => filter (fun c : cell => fst c =? dd) cells) (anseq 0 (S (N.to_nat d))).
+Definition ubytes (nb : nat) (c : cell) : list N := be_bytes nb (uniq_hpx (fst c) (snd c)).
+
+Lemma nuniq_data nb cells : forall ds,
+  flat_map (fun dd => flat_map (fun c : cell => if fst c =? dd then be_bytes nb (uniq_hpx (fst c) (snd c)) else []) cells) ds
+  = flat_map (ubytes nb) (flat_map (fun dd => filter (fun c : cell => fst c =? dd) cells) ds).
+Proof.
+  induction ds as [|dd ds IH]; [reflexivity|]. cbn [flat_map]. rewrite flat_map_app, IH. f_equal.
+  clear IH. induction cells as [|c t IHc]; [reflexivity|]. cbn [flat_map filter].
+  destruct (fst c =? dd); cbn [flat_map app]; rewrite IHc; reflexivity.
+Qed.
+
+Definition cell_ok (w dmax : N) (c : cell) : Prop := fst c <= dmax /\ snd c < 12 * 4 ^ fst c.
+
+Lemma n_cells_hpx d : n_cells Hpx d = 12 * 4 ^ d.
+Proof. unfold n_cells. cbn [nd0 dim]. rewrite four_pow. reflexivity. Qed.
+
+Lemma uniq_lt_width w dmax c : okw w -> dmax <= max_depth Hpx w -> cell_ok w dmax c ->
+  uniq_hpx (fst c) (snd c) < 256 ^ N.of_nat (N.to_nat (w / 8)) /\ 4 <= uniq_hpx (fst c) (snd c).
+Proof.
+  intros Hw Hd [H1 H2]. unfold uniq_hpx.
+  assert (P : 4 ^ fst c <= 4 ^ max_depth Hpx w) by (apply N.pow_le_mono_r; lia).
+  assert (Q : 16 * 4 ^ max_depth Hpx w <= 256 ^ N.of_nat (N.to_nat (w / 8))) by (destruct Hw as [->|[->| ->]]; vm_compute; discriminate).
+  pose proof (N.pow_nonzero 4 (fst c) ltac:(lia)).
+  split; lia.
+Qed.
+
+Lemma read_nuniq_cells w nb dmax : okw w -> nb = N.to_nat (w / 8) -> dmax <= max_depth Hpx w ->
+  forall ucells fuel l_acc pad, Forall (cell_ok w dmax) ucells -> (List.length ucells < fuel)%nat ->
+  read_nuniq fuel w nb (N.of_nat (List.length ucells)) dmax (flat_map (ubytes nb) ucells ++ pad) l_acc
+  = Datatypes.inr (l_acc ++ ucells).
+Proof.
+  intros Hw Hnb Hd. subst nb. induction ucells as [|c t IH]; intros fuel l_acc pad Hok Hf.
+  - destruct fuel; [cbn [List.length] in Hf; lia|]. cbn [read_nuniq List.length flat_map app]. change (N.of_nat 0 =? 0) with true. cbn iota. rewrite app_nil_r. reflexivity.
+  - pose proof (Forall_inv Hok) as Hc. pose proof (Forall_inv_tail Hok) as Ht. cbn beta in Hc.
+    destruct fuel as [|fuel]; [cbn [List.length] in Hf; lia|].
+    destruct (uniq_lt_width w dmax c Hw Hd Hc) as [U1 U2].
+    set (u := uniq_hpx (fst c) (snd c)) in *.
+    assert (L : List.length (be_bytes (N.to_nat (w / 8)) u) = N.to_nat (w / 8)) by apply be_bytes_length.
+    replace (flat_map (ubytes (N.to_nat (w / 8))) (c :: t) ++ pad)
+      with (be_bytes (N.to_nat (w / 8)) u ++ (flat_map (ubytes (N.to_nat (w / 8))) t ++ pad))
+      by (cbn [flat_map]; rewrite <- app_assoc; reflexivity).
+    cbn [read_nuniq]. cbv zeta.
+    match goal with |- context [N.eqb ?x 0] =>
+      assert (N0 : N.eqb x 0 = false) by (apply N.eqb_neq; cbn [List.length]; lia); rewrite N0 end.
+    match goal with |- context [Nat.ltb ?x (N.to_nat (w / 8))] =>
+      assert (Len : Nat.ltb x (N.to_nat (w / 8)) = false) by (apply Nat.ltb_ge; rewrite app_length, L; lia); rewrite Len end.
+    rewrite !(firstn_app_exact _ _ _ L), !(skipn_app_exact _ _ _ L).
+    rewrite be_roundtrip by exact U1.
+    destruct (N.eqb_spec u 0) as [Z|_]; [lia|]. destruct (N.ltb_spec u 4) as [Z|_]; [lia|].
+    destruct Hc as [C1 C2].
+    unfold u. rewrite (uniq_hpx_roundtrip (fst c) (snd c) C2). cbn [fst snd].
+    destruct (N.ltb_spec dmax (fst c)) as [Z|_]; [lia|].
+    rewrite n_cells_hpx. destruct (N.leb_spec (12 * 4 ^ fst c) (snd c)) as [Z|_]; [lia|].
+    match goal with |- context [N.sub ?x 1] =>
+      replace (N.sub x 1) with (N.of_nat (List.length t)) by (cbn [List.length]; lia) end.
+    rewrite IH; [|exact Ht|cbn [List.length] in Hf; lia].
+    rewrite <- app_assoc. destruct c. reflexivity.
+Qed.
+
+Lemma nuniq_cards_len w d : okw w -> Forall (fun c => List.length c = 80%nat) (nuniq_cards w d ++ [pad80 (s2l "END")]).
+Proof.
+  intros Hw. pose proof (adec_length d).
+  unfold nuniq_cards. destruct Hw as [->|[->| ->]];
+    repeat constructor; try (apply kw_record_length; [reflexivity|cbn [List.length]; lia]); reflexivity.
+Qed.
+
+Lemma filter_length_le {A} (f : A -> bool) l : (List.length (filter f l) <= List.length l)%nat.
+Proof. induction l as [|a t IH]; [cbn; lia|]. cbn [filter]. destruct (f a); cbn [List.length]; lia. Qed.
+
+Section RegroupKey.
+  Context {A : Type} (key : A -> N).
+  Definition selk (d : N) (es : list A) : list A := filter (fun x => key x =? d) es.
+
+  Lemma selk_notin x es ds : ~ In (key x) ds ->
+    flat_map (fun d => selk d (x :: es)) ds = flat_map (fun d => selk d es) ds.
+  Proof.
+    induction ds as [|d ds IH]; intros H; [reflexivity|].
+    cbn [flat_map]. rewrite IH by (intros H'; apply H; right; exact H').
+    f_equal. unfold selk. cbn [filter]. destruct (N.eqb_spec (key x) d); [exfalso; apply H; left; auto|reflexivity].
+  Qed.
+
+  Lemma selk_nil ds : flat_map (fun d => selk d []) ds = [].
+  Proof. induction ds as [|d ds IH]; [reflexivity|]. cbn [flat_map]. rewrite IH. reflexivity. Qed.
+
+  Lemma selk_insert x es : forall ds, NoDup ds -> In (key x) ds ->
+    Permutation (flat_map (fun d => selk d (x :: es)) ds) (x :: flat_map (fun d => selk d es) ds).
+  Proof.
+    induction ds as [|d ds IH]; intros Hnd Hx; [destruct Hx|].
+    inversion Hnd as [|? ? Hnot Hnd']; subst. cbn [flat_map].
+    destruct (N.eq_dec (key x) d) as [Ed|Nd].
+    - subst d. rewrite (selk_notin x es ds Hnot). unfold selk at 1. cbn [filter]. rewrite N.eqb_refl. reflexivity.
+    - destruct Hx as [Hx|Hx]; [congruence|].
+      unfold selk at 1. cbn [filter]. destruct (N.eqb_spec (key x) d); [congruence|]. fold (selk d es).
+      eapply Permutation_trans; [apply Permutation_app_head; apply IH; assumption|].
+      apply Permutation_sym, Permutation_middle.
+  Qed.
+
+  Lemma regroup_perm_key es : forall ds, NoDup ds -> Forall (fun x => In (key x) ds) es ->
+    Permutation (flat_map (fun d => selk d es) ds) es.
+  Proof.
+    induction es as [|x es IH]; intros ds Hnd Hin.
+    - rewrite selk_nil. constructor.
+    - inversion Hin as [|? ? Hx Hin']; subst.
+      eapply Permutation_trans; [apply selk_insert; assumption|]. constructor. apply IH; assumption.
+  Qed.
+End RegroupKey.
+
+Lemma regroupc_perm d cells : Forall (fun c : cell => fst c <= d) cells -> Permutation (regroupc d cells) cells.
+Proof.
+  intros H. unfold regroupc. apply (regroup_perm_key (fun c : cell => fst c)); [apply nseq_nodup|].
+  eapply Forall_impl; [|exact H]. intros c Hc. cbn beta in Hc. apply nseq_in. lia.
+Qed.
+
+Theorem fits_nuniq_file_roundtrip w d cells : okw w -> d <= max_depth Hpx w -> Forall (cell_ok w d) cells ->
+  N.of_nat (List.length cells) < 2 ^ 64 ->
+  fits_read (fits_write_nuniq w d cells) = FOk LSNuniq w d 0 (DCells (fold_right insert_c [] (regroupc d cells))).
+Proof.
+  intros Hw Hd Hok Hn.
+  assert (Hd256 : d < 256) by (pose proof (max_depth_255 Hpx w Hw); lia).
+  unfold fits_write_nuniq. cbn zeta.
+  set (nb := N.to_nat (w / 8)).
+  rewrite nuniq_data. fold (regroupc d cells).
+  set (ucells := regroupc d cells).
+  set (data := flat_map (ubytes nb) ucells).
+  set (pad := repeat 0 (N.to_nat (fits_pad (N.of_nat (List.length data))))).
+  (* the regrouped cells are the cells: same count, all valid *)
+  assert (Uok : Forall (cell_ok w d) ucells).
+  { apply Forall_forall. intros c Hc. unfold ucells, regroupc in Hc. apply in_flat_map in Hc. destruct Hc as [dd [_ Hc]].
+    apply filter_In in Hc. rewrite Forall_forall in Hok. apply Hok. tauto. }
+  assert (Ulen : List.length ucells = List.length cells).
+  { apply Permutation_length. apply regroupc_perm. eapply Forall_impl; [|exact Hok]. intros c [Hc _]. exact Hc. }
+  unfold fits_read. rewrite <- ?app_assoc. rewrite primary_ok.
+  pose proof (nuniq_cards_len w d Hw) as TL.
+  assert (TN : List.length (nuniq_cards w d ++ [pad80 (s2l "END")]) = 10%nat) by reflexivity.
+  set (nrows := N.of_nat (List.length cells)).
+  replace (mand_cards w nrows ++ nuniq_cards w d ++ [pad80 (s2l "END")]) with (mand_cards w nrows ++ (nuniq_cards w d ++ [pad80 (s2l "END")])) by reflexivity.
+  rewrite read_block_hdr.
+  2:{ apply Forall_app. split; [apply mand_cards_len|exact TL]. }
+  2:{ rewrite app_length, TN. cbn [mand_cards List.length]. lia. }
+  pose proof (mand_ok_all w Hw) as HF. unfold mand_ok in HF. cbn zeta in HF.
+  set (tail := nuniq_cards w d ++ [pad80 (s2l "END")]) in *.
+  assert (N8 : forall k, (k < 8)%nat -> k <> 4%nat -> forall Y, nth k ((mand_cards w nrows ++ tail) ++ Y) [] = nth k (mand_cards w 0) []).
+  { intros k Hk H4 Y. do 8 (destruct k as [|k]; [try reflexivity; try congruence|]). lia. }
+  rewrite !N8 by lia.
+  assert (N4 : forall Y, nth 4 ((mand_cards w nrows ++ tail) ++ Y) [] = mand_record (s2l "NAXIS2  ") nrows) by reflexivity.
+  rewrite N4.
+  destruct (check_kv (nth 0 (mand_cards w 0) []) (s2l "XTENSION") (s2l "'BINTABLE'")); [discriminate|].
+  destruct (check_kv (nth 1 (mand_cards w 0) []) (s2l "BITPIX  ") (s2l "8")); [discriminate|].
+  destruct (check_kv (nth 2 (mand_cards w 0) []) (s2l "NAXIS  ") (s2l "2")); [discriminate|].
+  destruct (check_kw_uint 8 (nth 3 (mand_cards w 0) []) (s2l "NAXIS1  ")) as [e|nbytes]; [discriminate|].
+  rewrite (naxis2_card nrows Hn).
+  destruct (check_kv (nth 5 (mand_cards w 0) []) (s2l "PCOUNT  ") (s2l "0")); [discriminate|].
+  destruct (check_kv (nth 6 (mand_cards w 0) []) (s2l "GCOUNT  ") (s2l "1")); [discriminate|].
+  destruct (check_kv (nth 7 (mand_cards w 0) []) (s2l "TFIELDS ") (s2l "1")); [discriminate|].
+  apply N.eqb_eq in HF. subst nbytes.
+  assert (SK : skipn 8 ((mand_cards w nrows ++ tail) ++ repeat blank (36 - List.length (mand_cards w nrows ++ tail)))
+               = nuniq_cards w d ++ [pad80 (s2l "END")] ++ repeat blank 18).
+  { unfold tail. reflexivity. }
+  rewrite SK.
+  destruct (nuniq_tail_loop w d 18 Hw Hd256) as [m [K1 [K2 K3]]].
+  cbn [kw_blocks]. rewrite K1, K2, K3.
+  rewrite N.min_l by exact Hd.
+  fold nb. unfold nrows. rewrite <- Ulen.
+  rewrite (read_nuniq_cells w nb d Hw eq_refl Hd ucells _ [] pad Uok).
+  - reflexivity.
+  - rewrite app_length. unfold data.
+    assert (NB : (0 < nb)%nat) by (unfold nb; destruct Hw as [->|[->| ->]]; vm_compute; lia).
+    assert (LB : (List.length ucells <= List.length (flat_map (ubytes nb) ucells))%nat).
+    { clear - NB. induction ucells as [|c t IH]; [cbn; lia|]. cbn [flat_map List.length]. rewrite app_length. unfold ubytes at 1.
+      rewrite be_bytes_length. lia. }
+    lia.
+Qed.
+
+(** the cells returned are the cells written, sorted by the reader (flat_cmp) *)
+Lemma insert_c_perm c l : Permutation (insert_c c l) (c :: l).
+Proof.
+  induction l as [|y t IH]; cbn [insert_c]; [reflexivity|].
+  destruct (cell_low Hpx c y); [reflexivity|].
+  eapply Permutation_trans; [apply perm_skip; exact IH|apply perm_swap].
+Qed.
+Lemma isort_c_perm l : Permutation (fold_right insert_c [] l) l.
+Proof.
+  induction l as [|x t IH]; [constructor|]. cbn [fold_right].
+  eapply Permutation_trans; [apply insert_c_perm|]. constructor. exact IH.
+Qed.
+Lemma insert_c_sorted c l : Sorted.Sorted (fun a b => cell_low Hpx a b = true) l ->
+  Sorted.Sorted (fun a b => cell_low Hpx a b = true) (insert_c c l).
+Proof.
+  induction l as [|y t IH]; intros H; cbn [insert_c]; [repeat constructor|].
+  destruct (cell_low Hpx c y) eqn:E.
+  - constructor; [exact H|constructor; exact E].
+  - inversion H as [|? ? Hs Hh]; subst. constructor; [apply IH; exact Hs|].
+    assert (T : cell_low Hpx y c = true) by (unfold cell_low in *; apply flat_leb_total; exact E).
+    destruct t as [|z t]; cbn [insert_c].
+    + constructor. exact T.
+    + destruct (cell_low Hpx c z); constructor; [exact T|inversion Hh; assumption].
+Qed.
+Lemma isort_c_sorted l : Sorted.Sorted (fun a b => cell_low Hpx a b = true) (fold_right insert_c [] l).
+Proof. induction l as [|x t IH]; [constructor|]. cbn [fold_right]. apply insert_c_sorted. exact IH. Qed.
+
+Theorem nuniq_cells_sorted_permutation d cells : Forall (fun c : cell => fst c <= d) cells ->
+  Permutation (fold_right insert_c [] (regroupc d cells)) cells /\
+  Sorted.Sorted (fun a b => cell_low Hpx a b = true) (fold_right insert_c [] (regroupc d cells)).
+Proof.
+  intros H. split; [|apply isort_c_sorted].
+  eapply Permutation_trans; [apply isort_c_perm|apply regroupc_perm; exact H].
 Qed.
